@@ -172,8 +172,11 @@ static bool the_callback(const char *filename, const void *data) {
   bool verdict = true;
   if (c->cb_calls <= 64 && (c->cb_reject_mask >> (c->cb_calls - 1) & 1)) verdict = false;
   if (c->cb_reject_path && samepath(c->cb_reject_path, filename)) verdict = false;
+  char absname[8192];
+  if (filename[0] != '/') { char cwd[4096]; if (!getcwd(cwd, sizeof cwd)) cwd[0] = 0; snprintf(absname, sizeof absname, "%s/%s", cwd, filename); }
+  else snprintf(absname, sizeof absname, "%s", filename);
   for (int i = 0; i < c->cb_nlate; i++)
-    if (samepath(c->cb_late_path[i], filename))
+    if (samepath(c->cb_late_path[i], absname))
       wfile(filename, c->cb_late_data[i], c->cb_late_len[i]);
   if (c->cb_nlog == c->cb_caplog) {
     c->cb_caplog = c->cb_caplog ? 2 * c->cb_caplog : 16;
